@@ -202,7 +202,8 @@ fn igs_contexts() -> Vec<(&'static str, &'static str)> {
 }
 
 /// well-formed drawing commands that make the state left by the preceding command visible
-const IGS_PROBES: [&str; 18] = [
+const IGS_PROBES: [&str; 22] = [
+    "G1,3,0,0,100,100:G3,3,50,50,150,150,200,50:", "G1,3,10,10,60,60:G3,3,0,0,80,80,5,5:", "G1,3,0,0,30,30:G2,3,300,190:", "G1,3,100,100,319,199:G3,3,0,0,400,400,0,0:",
     "L0,0,50,50:", "B10,10,60,60,0:", "Z5,5,40,40:", "O50,50,20:", "F1,1:", "W10,10,Hi@", "P20,20:", "D30,30:", "Q50,50,30,10:", "K50,50,20,0,90:", "G0,3,0,0,10,10,20,20:",
     "U10,10,90,90,1:", "f3,10,10,50,10,30,40:", "z3,10,10,50,10,30,40:", "V50,50,20,0,90:", "Y50,50,30,10,0,90:", "J50,50,30,10,0,90:", "G1,3,0,0,20,20:G2,3,30,30:",
 ];
@@ -416,8 +417,9 @@ fn show(bytes: &[u8]) -> String {
 
 impl Gfx {
     fn run_stream(&self, emu: Emu, ctx_name: &str, prefix: &[u8], stream: &[u8], key: &str, ctx: &mut Ctx) {
-        // the full RGBA read-back of the RIP canvas is taken on every 16th stream, its storage shape on every stream
-        let ctx_force = self.counter.get() % 16 == 0;
+        // the full RGBA read-back of the RIP canvas is taken on every stream of the two-step families (a command followed by drawing
+        // commands, pairs, fills, text) and on every 16th stream elsewhere; its storage shape on every stream
+        let ctx_force = self.counter.get() % 16 == 0 || key.contains(" then ") || key.contains("flood fill") || key.contains("continuation");
         self.counter.set(self.counter.get() + 1);
         ctx.count("evaluations", 1);
         ctx.count("transitions", (prefix.len() + stream.len()) as u64);
@@ -699,6 +701,18 @@ impl Engine for Gfx {
                                 for gy in 0..6 {
                                     let (x, y) = (gx * 85 + 3, gy * 62 + 3);
                                     let s = format!("!|{}|{style}|F{}{}{border}|\n", RIP_SCENES[scene], mega(x), mega(y));
+                                    self.run_stream(Emu::Rip, "initial state", b"", s.as_bytes(), &key, ctx);
+                                }
+                            }
+                        }
+                    }
+                    // the same fills inside viewports: beyond the screen, small, in the lower right part, one pixel
+                    for view in ["v0000ZZZZ", "v0A0A1E1E", "v8O4OHR9P", "v0000HR9P", "vZZZZ0000", "v0A0A0A0A"] {
+                        for style in ["S0102", "s0F0F0F0F0F0F0F0F0C"] {
+                            for gx in 0..8 {
+                                for gy in 0..6 {
+                                    let (x, y) = (gx * 85 + 3, gy * 62 + 3);
+                                    let s = format!("!|{view}|{}|{style}|F{}{}0F|\n", RIP_SCENES[scene], mega(x), mega(y));
                                     self.run_stream(Emu::Rip, "initial state", b"", s.as_bytes(), &key, ctx);
                                 }
                             }
